@@ -85,13 +85,13 @@ namespace GoMod
 /-- one `replace` directive seen from a single requirement: its ORIGINAL key and its current value -/
 def step (kv : (Str × Str) × NV) (rp : Replace) : (Str × Str) × NV :=
   let new : NV := ⟨rp.newPath, trimPrefixV rp.newVersion⟩
-  if rp.oldVersion.isEmpty then (if kv.2.name = rp.oldPath then (kv.1, new) else kv)
+  if rp.oldVersion.isEmpty then (if kv.1.1 = rp.oldPath then (kv.1, new) else kv)
   else (if kv.1 = (rp.oldPath, trimPrefixV rp.oldVersion) then (kv.1, new) else kv)
 
 def keyOf (r : Str × Str) : Str × Str := (r.1, trimPrefixV r.2)
 /-- the package a `require` line ends up as, after all `replace` directives in file order -/
 def finalOf (d : Doc) (r : Str × Str) : NV :=
-  (d.replaces.foldl step (keyOf r, ⟨r.1, trimPrefixV r.2⟩)).2
+  ((ordered d).foldl step (keyOf r, ⟨r.1, trimPrefixV r.2⟩)).2
 
 def stdlibKey : Str × Str := ("stdlib".toList, [])
 
